@@ -1,12 +1,19 @@
 (** C07 - Renaming rewrites exactly the matching names and nothing else.
 
-    PARTIAL.  Proved: the shape of every replacement [replace_raw] produces (the last [length source]
-    bytes of the name replaced by the target, result within 255 bytes, exact mode only for equal
-    lengths).  The packet-level statement is decided on every run by the correspondence and by the
-    abstract rename applied to the independently decoded message.  Known finding shared with C06:
-    pointer chains of more than 16 hops. *)
+    PARTIAL.  Proved at the level of one name, for all pointer-free names given by their labels
+    (1..63 bytes each), non-root source and target: [replace_raw] replaces the trailing labels of
+    the name by the labels of the target exactly when those trailing labels equal the labels of
+    the source up to ASCII case - the whole name in exact mode, any suffix on a label boundary in
+    suffix mode (C07_replaces_matching_suffix); it fails instead of producing a name longer than
+    255 bytes (same theorem); in every other case it reports "no match" and the caller keeps the
+    name (C07_keeps_other_names); renaming a name to a case variant of itself gives the same
+    labels (C07_identity).  Also the shape of every replacement (C07_replace_raw_shape).
+    The packet-level statement (which names of the packet are visited, everything else copied,
+    counts / order / opaque data / OPT kept) is decided on every run by the correspondence and by
+    the abstract rename applied to the independently decoded message.  Known finding shared with
+    C06: pointer chains of more than 16 hops. *)
 From DV Require Import Model.Base Model.Parser Model.Header Model.Readers Model.Uncompress Model.Compress
-  Model.Renamer Proofs.Hoare Proofs.CompressFrame.
+  Model.Renamer Spec.NameSpec Proofs.Hoare Proofs.CompressFrame Proofs.RenameSpec.
 
 Theorem C07_replace_raw_shape : forall name target source sfx r,
   replace_raw name target source sfx = Ok (Some r) ->
@@ -16,6 +23,41 @@ Theorem C07_replace_raw_shape : forall name target source sfx r,
   (sfx = false -> length name = length source).
 Proof. exact replace_raw_shape. Qed.
 Print Assumptions C07_replace_raw_shape.
+
+Theorem C07_replaces_matching_suffix : forall (nl sl tl : list bytes) (sfx : bool),
+  Forall lab nl -> Forall lab sl -> Forall lab tl -> sl <> [] -> tl <> [] ->
+  forall pre rest, nl = pre ++ rest -> ci_labels rest sl -> sfx = true \/ pre = [] ->
+  replace_raw (wire_of_labels nl) (wire_of_labels tl) (wire_of_labels sl) sfx =
+    if DNS_MAX_HOSTNAME_LEN <? length (labels_flat pre) + length (wire_of_labels tl) then Err InvalidName
+    else Ok (Some (wire_of_labels (pre ++ tl))).
+Proof. exact replace_raw_match. Qed.
+Print Assumptions C07_replaces_matching_suffix.
+
+Theorem C07_keeps_other_names : forall (nl sl tl : list bytes) (sfx : bool),
+  Forall lab nl -> Forall lab sl -> Forall lab tl -> sl <> [] -> tl <> [] ->
+  (forall pre rest, nl = pre ++ rest -> ci_labels rest sl -> ~ (sfx = true \/ pre = [])) ->
+  replace_raw (wire_of_labels nl) (wire_of_labels tl) (wire_of_labels sl) sfx = Ok None.
+Proof. exact replace_raw_no_match. Qed.
+Print Assumptions C07_keeps_other_names.
+
+Theorem C07_identity : forall nl sl, Forall lab nl -> Forall lab sl -> sl <> [] -> ci_labels nl sl ->
+  length (wire_of_labels sl) <= 255 ->
+  replace_raw (wire_of_labels nl) (wire_of_labels sl) (wire_of_labels sl) false = Ok (Some (wire_of_labels sl)).
+Proof. exact replace_raw_identity. Qed.
+Print Assumptions C07_identity.
+
+(** Non-vacuity of the two theorems: "www.EX" against source "ex" (suffix mode) matches with pre = [www];
+    against source "xe" nothing matches. *)
+Example C07_hypotheses_met :
+  Forall lab [[119;119;119];[69;88]]%N /\ ci_labels [[69;88]]%N [[101;120]]%N /\
+  (forall pre rest, [[119;119;119];[69;88]]%N = pre ++ rest -> ci_labels rest [[120;101]]%N -> ~ (true = true \/ pre = [])).
+Proof.
+  split; [repeat constructor; cbn; lia|]. split; [repeat constructor|].
+  intros pre rest E H. unfold ci_labels in H.
+  destruct pre as [|a [|b [|c pre]]]; cbn in E; inversion E; subst;
+    repeat match goal with H : Forall2 _ _ _ |- _ => inversion H; clear H; subst end;
+    try match goal with H : map lower_byte _ = map lower_byte _ |- _ => cbv in H; discriminate end.
+Qed.
 
 Example C07_sample :
   replace_raw [3;119;119;119; 2;69;88; 0]%N [3;110;101;116;0]%N [2;101;120;0]%N true
